@@ -114,3 +114,26 @@ def accepts_null(node, defs):
     if n["k"] == "union":
         return any(deref(b, defs)["k"] == "null" for b in n["branches"])
     return False
+
+
+def default_value(node, defs, default):
+    """The Python value denoted by a field default given in the specification's
+    JSON form: bytes and fixed are strings of code points 0-255, a union default
+    belongs to the first branch, containers recurse."""
+    n = deref(node, defs)
+    k = n["k"]
+    if k == "union":
+        return default_value(n["branches"][0], defs, default) if n["branches"] else default
+    if k in ("bytes", "fixed") and isinstance(default, str):
+        return bytes(ord(c) for c in default)
+    if k == "array" and isinstance(default, list):
+        return [default_value(n["items"], defs, x) for x in default]
+    if k == "map" and isinstance(default, dict):
+        return {kk: default_value(n["values"], defs, x) for kk, x in default.items()}
+    if k == "record" and isinstance(default, dict):
+        out = dict(default)
+        for f in n["fields"]:
+            if f["name"] in default:
+                out[f["name"]] = default_value(f["type"], defs, default[f["name"]])
+        return out
+    return default
